@@ -453,7 +453,7 @@ def definedness_obligations(K: SymK, path_facts):
 # --------------------------------------------------------------------------------------------
 # running a unit symbolically and discharging its obligations
 # --------------------------------------------------------------------------------------------
-def discharge(o: Obligation, timeout_ms=None):
+def discharge(o: Obligation, timeout_ms=None, use_cvc5=True):
     t0 = time.time()
     g = o.goal
     if g.is_const():
@@ -462,10 +462,10 @@ def discharge(o: Obligation, timeout_ms=None):
             o.result = smt.Result("proved", back, time.time() - t0, detail=o.note)
         else:
             # goal is literally False: refuted iff the assumptions are satisfiable
-            r = smt.prove(BoolSym.const(False), o.assumptions, timeout_ms=timeout_ms)
+            r = smt.prove(BoolSym.const(False), o.assumptions, timeout_ms=timeout_ms, use_cvc5=use_cvc5)
             o.result = r
         return o.result
-    o.result = smt.prove(g, o.assumptions, timeout_ms=timeout_ms)
+    o.result = smt.prove(g, o.assumptions, timeout_ms=timeout_ms, use_cvc5=use_cvc5)
     return o.result
 
 
@@ -504,7 +504,9 @@ def run_unit_sym(name, cfg, timeout_ms=None, want_props=None):
             for o in obs:
                 if want_props and not (set(o.props) & set(want_props)):
                     continue
-                r = discharge(o, timeout_ms)
+                # once a unit is refuted several times over, do not spend long solver budgets on its other clauses
+                hurry = sum(1 for x in results if x["verdict"] == "refuted") >= 3
+                r = discharge(o, 2000 if hurry else timeout_ms, use_cvc5=not hurry)
                 results.append(dict(name=o.name, props=list(o.props), kind=o.kind, verdict=r.verdict,
                                     backend=r.backend, seconds=round(r.seconds, 4), model=r.model,
                                     detail=(r.detail or o.note)[:2000], unit=name, cfg=cfg,
